@@ -8,6 +8,7 @@ CONSTANTS
   SigTypes = {"RRSIG", "SIG"}
   InitStates = {}
   MaxIndex = 0
+  DynTypes = {"DYN"}
 CONSTRAINT Accepted
 POSTCONDITION Post
 CHECK_DEADLOCK FALSE
